@@ -74,6 +74,15 @@ pub fn judge_point(ctx: &mut Ctx, layers: &[&'static nested::Layer], lon: f64, l
       if hs[29] != u64::MAX { ctx.eval(); if hs[d] != hs[29] >> (2 * (29 - d)) { ctx.violation("prefix-broken-vs-depth29", mk(d as u8), format!("h_d={} h_29={}", hs[d], hs[29])); } }
     }
   }
+  // the cell number is also returned by hash_with_dxdy and hash_dxdy_v2 (public): same exact-prefix rule, each accessor with itself
+  if prefix_only {
+    for (name, which) in [("hash_with_dxdy", 0u8), ("hash_dxdy_v2", 1u8)].iter() {
+      let mut ha = [u64::MAX; 30];
+      for depth in 0..30usize { if let Ok(v) = catch(|| if *which == 0 { layers[depth].hash_with_dxdy(lon, lat).0 } else { layers[depth].hash_dxdy_v2(lon, lat).0 }) { ha[depth] = v; } }
+      for d in 0..29usize { if ha[d] == u64::MAX || ha[d + 1] == u64::MAX { continue; } ctx.eval();
+        if ha[d] != ha[d + 1] >> 2 { ctx.violation("prefix-broken-consecutive", mk(d as u8).s("fn", name), format!("{}: h_d={} h_(d+1)={} (>>2 = {})", name, ha[d], ha[d + 1], ha[d + 1] >> 2)); } }
+    }
+  }
   let cls = point_class(lon, lat);
   if !cls.is_empty() { ctx.hard(cls, &[lon.to_bits(), lat.to_bits()]); }
   if on_border { ctx.hard("on-cell-border(<1e-12)", &[lon.to_bits(), lat.to_bits()]); }
